@@ -300,7 +300,13 @@ class Ctx:
         ev = {"property_id": self.pid, "tier": self.tier, "seed": self.seed, "level": "proof",
               "coverage": cov, "assumptions": self.assumptions, "wall_s": round(time.time() - self.t0, 2),
               "violations": violations}
-        with open(os.path.join(VERIF, "evidence", self.pid + ".json"), "w") as fh:
+        # evidence/<id>.json describes runs against /repo itself; runs against a scratch tree (VERIF_REPO=..., used for
+        # mutation tests) write to build/evidence-scratch/ so that they never overwrite the committed record
+        edir = os.path.join(VERIF, "evidence")
+        if os.path.realpath(REPO) != "/repo":
+            edir = os.path.join(BUILD, "evidence-scratch")
+            os.makedirs(edir, exist_ok=True)
+        with open(os.path.join(edir, self.pid + ".json"), "w") as fh:
             json.dump(ev, fh, indent=1, default=str)
 
 
